@@ -60,12 +60,12 @@ Proof.
 Qed.
 
 (* ================================================================== the sufficient condition *)
-Definition red_safe (d : decls) (idx x : name) (xi : list expr) (arr : aexpr) (mask : option aexpr) : bool :=
+Definition red_safe (fx : fixes) (d : decls) (idx x : name) (xi : list expr) (arr : aexpr) (mask : option aexpr) : bool :=
   match accessors arr with
   | (F, fix_) :: _ =>
       match range_pos 0 fix_ with
       | Some (p, lo, hi, st) =>
-          let chk := acc_safe d idx x None F p lo st in
+          let chk := acc_safe fx d idx x None F p lo st in
           negb (Nat.eqb idx x) && chk F fix_ && aexpr_safe chk idx x arr &&
           (match mask with Some m => aexpr_safe chk idx x m | None => true end) &&
           forallb (fun e => negb (mentions idx e) && negb (mentions x e)) xi
@@ -92,9 +92,9 @@ Definition red_fold (k : rkind) (arr : aexpr) (mask : option aexpr) (s : store) 
   end.
 
 (* ================================================================== the loop *)
-Theorem red_loop_ok d idx x xi k arr mask code s xv v :
-  red_loop d idx x xi k arr mask = Some code ->
-  red_safe d idx x xi arr mask = true -> bnd_ok d s ->
+Theorem red_loop_ok fx d idx x xi k arr mask code s xv v :
+  red_loop fx d idx x xi k arr mask = Some code ->
+  red_safe fx d idx x xi arr mask = true -> bnd_ok d s ->
   opt_all (map (eval s) xi) = Some xv ->
   red_fold k arr mask s = Some v ->
   hoare 6 code s (fun s' => val s' (x, xv) = v /\ bnd s' = bnd s /\
@@ -113,7 +113,7 @@ Proof.
   apply Z.eqb_neq in T0. set (n := trip_count l h t) in *.
   destruct (red_elems s arr mask (zseq 0 n)) as [all|] eqn:Eall; [|discriminate].
   cbn [option_map] in Fold. inversion Fold; subst v. clear Fold.
-  set (r := ridx_of d idx F p lo st).
+  set (r := ridx_of fx d idx F p lo st).
   (* freshness facts *)
   pose proof SF as SF'. unfold acc_safe in SF'. apply andb_true_iff in SF' as [S3 _].
   apply andb_true_iff in S3 as [S3 _]. apply andb_true_iff in S3 as [_ Ffr].
@@ -175,7 +175,7 @@ Proof.
     assert (Vx1 : val s1 (x, xv) = fold_left zop ej z0).
     { unfold s1. rewrite val_upd_other by (intro X; inversion X; congruence). exact Hv. }
     assert (Earr : eval s1 (lower r arr) = Some v).
-    { unfold r. rewrite (lower_eval d idx x F None p lo st s s1 (Z.of_nat j) l t Hbnd El Et R1 R2 R3 R4 Flo _ Sarr). exact Ev. }
+    { unfold r. rewrite (lower_eval fx d idx x F None p lo st s s1 (Z.of_nat j) l t Hbnd El Et R1 R2 R3 R4 Flo _ Sarr). exact Ev. }
     (* the accumulation statement *)
     assert (Hupd : hoare 2 [SAssign x xi (red_op k (tgt_ref x xi) (lower r arr))] s1
                      (fun s2 => val s2 (x, xv) = fold_left zop (ej ++ [v]) z0 /\ bnd s2 = bnd s /\
@@ -188,7 +188,7 @@ Proof.
     destruct mask as [m|].
     + (* masked *)
       assert (Em : eval s1 (lower r m) = Some b).
-      { unfold r. rewrite (lower_eval d idx x F None p lo st s s1 (Z.of_nat j) l t Hbnd El Et R1 R2 R3 R4 Flo _ Smask). exact Eb. }
+      { unfold r. rewrite (lower_eval fx d idx x F None p lo st s s1 (Z.of_nat j) l t Hbnd El Et R1 R2 R3 R4 Flo _ Smask). exact Eb. }
       change 3%nat with (S (S 1)). eapply hoare_if; [exact Em|].
       destruct (b =? 0) eqn:B0.
       * eapply hoare_mono; [|apply hoare_nil]; [lia|]. exists ej. rewrite zseq_snoc, red_elems_app, Hej.
@@ -204,9 +204,9 @@ Proof.
 Qed.
 
 (* all extents (also empty), all masks: the loop leaves the Fortran value of the reduction in x *)
-Theorem reduction_ok_ d idx x xi k arr mask code s xv v :
-  red_loop d idx x xi k arr mask = Some code ->
-  red_safe d idx x xi arr mask = true -> bnd_ok d s ->
+Theorem reduction_ok_ fx d idx x xi k arr mask code s xv v :
+  red_loop fx d idx x xi k arr mask = Some code ->
+  red_safe fx d idx x xi arr mask = true -> bnd_ok d s ->
   opt_all (map (eval s) xi) = Some xv ->
   red_sem k arr mask s = Some v ->
   (forall l h t all, red_elems s arr mask (zseq 0 (trip_count l h t)) = Some all ->
@@ -318,17 +318,17 @@ Definition red_names_ok (idx tmp hole x : name) (xi : list expr) (ctx : option e
   | None => true
   end.
 
-Definition red_stmt_safe (d : decls) (idx tmp hole x : name) (xi : list expr) (arr : aexpr)
+Definition red_stmt_safe (fx : fixes) (d : decls) (idx tmp hole x : name) (xi : list expr) (arr : aexpr)
                          (mask : option aexpr) (ctx : option expr) : bool :=
   let inc := red_increment x arr mask ctx in
   red_names_ok idx tmp hole x xi ctx &&
-  red_safe d idx (if inc then tmp else x) (if inc then [] else xi) arr mask &&
-  (* today's code forgets the final store in exactly this shape *)
-  negb (inc && match ctx with None => true | Some _ => false end).
+  red_safe fx d idx (if inc then tmp else x) (if inc then [] else xi) arr mask &&
+  (* the unfixed code forgets the final store in exactly this shape *)
+  negb (inc && match ctx with None => true | Some _ => false end && negb (fx_redstore fx)).
 
-Theorem reduction_sound_partial_ d idx tmp hole x xi k arr mask ctx code s s' :
-  red_apply d idx tmp x xi k arr mask ctx hole = Some code ->
-  red_stmt_safe d idx tmp hole x xi arr mask ctx = true -> bnd_ok d s ->
+Theorem reduction_sound_partial_ fx d idx tmp hole x xi k arr mask ctx code s s' :
+  red_apply fx d idx tmp x xi k arr mask ctx hole = Some code ->
+  red_stmt_safe fx d idx tmp hole x xi arr mask ctx = true -> bnd_ok d s ->
   red_stmt_sem k x xi arr mask ctx hole s = Some s' ->
   (forall l h t all, red_elems s arr mask (zseq 0 (trip_count l h t)) = Some all ->
                      Forall (fun w => - HUGE <= w <= HUGE) all) ->
@@ -340,7 +340,7 @@ Proof.
   destruct (red_sem k arr mask s) as [v|] eqn:Ev; [|discriminate].
   destruct (opt_all (map (eval s) xi)) as [xv|] eqn:Exi; [|discriminate].
   set (inc := red_increment x arr mask ctx) in *.
-  destruct (red_loop d idx (if inc then tmp else x) (if inc then [] else xi) k arr mask) as [loop|] eqn:EL; [|discriminate].
+  destruct (red_loop fx d idx (if inc then tmp else x) (if inc then [] else xi) k arr mask) as [loop|] eqn:EL; [|discriminate].
   unfold red_names_ok in Snames.
   apply andb_true_iff in Snames as [Sn Sctx]. apply andb_true_iff in Sn as [Sn Sxi].
   apply andb_true_iff in Sn as [Sn N3]. apply andb_true_iff in Sn as [N1 N2].
@@ -357,7 +357,7 @@ Proof.
     destruct inc eqn:Einc.
     + (* accumulated in the temporary *)
       exists (6 + 2)%nat. eapply hoare_app.
-      * apply (reduction_ok_ d idx tmp [] k arr mask loop s [] v EL Sred Hbnd eq_refl Ev Bd).
+      * apply (reduction_ok_ fx d idx tmp [] k arr mask loop s [] v EL Sred Hbnd eq_refl Ev Bd).
       * intros sL [Vt [Bt Lt]]. cbn beta.
         eapply hoare_conseq; [|eapply (ctx_assign [idx; tmp] s sL x xi xv c hole (tgt_ref tmp []) v w Bt)].
         -- intros s2 ->. split; [rewrite !bnd_upd; exact Bt|]. intros loc Hn.
@@ -377,12 +377,12 @@ Proof.
       assert (Mxc : mentions x c = false).
       { unfold inc, red_increment in Einc. apply orb_false_iff in Einc as [_ E]. exact E. }
       assert (Fxi2 : forall e, In e xi -> mentions x e = false).
-      { intros e He. unfold red_safe in Sred. destruct (accessors arr) as [|[F fx] ?]; [discriminate|].
-        destruct (range_pos 0 fx) as [[[[? ?] ?] ?]|]; [|discriminate].
+      { intros e He. unfold red_safe in Sred. destruct (accessors arr) as [|[F fxs] ?]; [discriminate|].
+        destruct (range_pos 0 fxs) as [[[[? ?] ?] ?]|]; [|discriminate].
         apply andb_true_iff in Sred as [_ S]. rewrite forallb_forall in S. specialize (S e He).
         apply andb_true_iff in S as [_ S]. apply negb_true_iff in S. exact S. }
       exists (6 + 2)%nat. eapply hoare_app.
-      * apply (reduction_ok_ d idx x xi k arr mask loop s xv v EL Sred Hbnd Exi Ev Bd).
+      * apply (reduction_ok_ fx d idx x xi k arr mask loop s xv v EL Sred Hbnd Exi Ev Bd).
       * intros sL [Vt [Bt Lt]]. cbn beta.
         assert (ExiL : opt_all (map (eval sL) xi) = Some xv).
         { rewrite <- Exi. f_equal. apply map_ext_in. intros e He. apply eval_names; [exact Bt|].
@@ -402,13 +402,29 @@ Proof.
         -- intros y e [<-|[<-|[]]] He; [destruct (Fxi e He); assumption | apply Fxi2, He].
         -- exact Exi.
         -- exact Ec.
-  - (* x = RED: nothing follows the loop *)
-    inversion Sem; subst s'. inversion Ap; subst code. clear Sem Ap.
-    destruct inc eqn:Einc; [discriminate|].
-    exists 6%nat. eapply hoare_conseq; [|apply (reduction_ok_ d idx x xi k arr mask loop s xv v EL Sred Hbnd Exi Ev Bd)].
-    intros sL [Vt [Bt Lt]]. split; [rewrite bnd_upd; exact Bt|]. intros loc Hn.
-    rewrite val_upd. destruct (loc_eq_dec loc (x, xv)) as [->|Nl]; [exact Vt|]. apply Lt; [|exact Nl].
-    intro X. apply Hn. left. symmetry. exact X.
+  - (* x = RED *)
+    inversion Sem; subst s'. clear Sem.
+    destruct inc eqn:Einc.
+    + (* accumulated in the temporary: only the fixed code stores it *)
+      destruct (fx_redstore fx) eqn:Efx; [|discriminate]. cbn [andb] in Ap. inversion Ap; subst code. clear Ap.
+      exists (6 + 2)%nat. eapply hoare_app.
+      * apply (reduction_ok_ fx d idx tmp [] k arr mask loop s [] v EL Sred Hbnd eq_refl Ev Bd).
+      * intros sL [Vt [Bt Lt]]. cbn beta. eapply hoare_assign.
+        -- rewrite <- Exi. f_equal. apply map_ext_in. intros e He. destruct (Fxi e He) as [M1 M2].
+           apply eval_names; [exact Bt|]. intros loc Hl. apply Lt.
+           ++ intro X. rewrite X in Hl. congruence.
+           ++ intro X. subst loc. cbn [fst] in Hl. congruence.
+        -- cbn [tgt_ref eval]. rewrite Vt. reflexivity.
+        -- split; [rewrite !bnd_upd; exact Bt|]. intros loc Hn.
+           rewrite !val_upd. destruct (loc_eq_dec loc (x, xv)); [reflexivity|]. apply Lt.
+           ++ intro X. apply Hn. left. symmetry. exact X.
+           ++ intro X. subst loc. apply Hn. right. left. reflexivity.
+    + (* accumulated in x itself: nothing follows the loop *)
+      rewrite andb_false_r in Ap. inversion Ap; subst code. clear Ap.
+      exists 6%nat. eapply hoare_conseq; [|apply (reduction_ok_ fx d idx x xi k arr mask loop s xv v EL Sred Hbnd Exi Ev Bd)].
+      intros sL [Vt [Bt Lt]]. split; [rewrite bnd_upd; exact Bt|]. intros loc Hn.
+      rewrite val_upd. destruct (loc_eq_dec loc (x, xv)) as [->|Nl]; [exact Vt|]. apply Lt; [|exact Nl].
+      intro X. apply Hn. left. symmetry. exact X.
 Qed.
 
 (* ================================================================== non-vacuity and refutations *)
@@ -423,8 +439,8 @@ Definition rx_mask : option aexpr := Some (ABin Gt (ASec 0%nat [IRange (ELit 1) 
 (* x = y - MAXVAL(a(1:4), mask = a(1:4) > 0):  safe, and the theorem's premises hold *)
 Example reduction_nonvacuous :
   let ctx := Some (EBin Sub (EVar 5%nat) (EVar 4%nat)) in
-  red_stmt_safe rx_decls 2%nat 3%nat 4%nat 1%nat [] rx_arr rx_mask ctx = true /\ bnd_ok rx_decls rx_store /\
-  (exists code, red_apply rx_decls 2%nat 3%nat 1%nat [] RMaxval rx_arr rx_mask ctx 4%nat = Some code) /\
+  red_stmt_safe unfixed rx_decls 2%nat 3%nat 4%nat 1%nat [] rx_arr rx_mask ctx = true /\ bnd_ok rx_decls rx_store /\
+  (exists code, red_apply unfixed rx_decls 2%nat 3%nat 1%nat [] RMaxval rx_arr rx_mask ctx 4%nat = Some code) /\
   (exists s', red_stmt_sem RMaxval 1%nat [] rx_arr rx_mask ctx 4%nat rx_store = Some s' /\ val s' (1%nat, []) = 5).
 Proof.
   cbv zeta. split; [vm_compute; reflexivity|]. split; [intros [|b]; reflexivity|].
@@ -434,12 +450,12 @@ Qed.
 (* a(1) = SUM(a(1:4)): accepted; the sum is accumulated into tmp and a(1) is never assigned *)
 Theorem reduction_refuted_ :
   exists d idx tmp hole x xi k arr mask code s s' s2 tr,
-    red_apply d idx tmp x xi k arr mask None hole = Some code /\ bnd_ok d s /\
+    red_apply unfixed d idx tmp x xi k arr mask None hole = Some code /\ bnd_ok d s /\
     red_stmt_sem k x xi arr mask None hole s = Some s' /\
     exec 20 code s = Ok s2 tr CNormal /\ val s2 (x, [1]) <> val s' (x, [1]).
 Proof.
   exists rx_decls, 2%nat, 3%nat, 4%nat, 0%nat, [ELit 1], RSum, rx_arr, (@None aexpr).
-  destruct (red_apply rx_decls 2%nat 3%nat 0%nat [ELit 1] RSum rx_arr None None 4%nat) as [code|] eqn:E1;
+  destruct (red_apply unfixed rx_decls 2%nat 3%nat 0%nat [ELit 1] RSum rx_arr None None 4%nat) as [code|] eqn:E1;
     [|vm_compute in E1; discriminate].
   destruct (red_stmt_sem RSum 0%nat [ELit 1] rx_arr None None 4%nat rx_store) as [s'|] eqn:E2;
     [|vm_compute in E2; discriminate].
